@@ -95,6 +95,7 @@ def run(fx, tier):
     v.rule('R-PAIR', 'free_pid exactly once on completing paths that hold an id, never on continuing paths, never without an id')
     v.rule('R-FLOW', 'freed / awaited / encoded id is the allocated one or packet_id() of the carried packet')
     v.rule('R-OWN', 'who may call allocate_pid/free_pid and packet_id_allocator::allocate/free')
+    v.rule('R-ITER', 'iterator-invalidation typestate inside packet_id_allocator (necessary for the interval list to stay consistent)')
     n_alloc = 0
     for f in entry_points(fx, OPS):
         v.saw(f)
@@ -250,6 +251,23 @@ def run(fx, tier):
                 where='%s:%d' % (caller.path_file(), line))
         if seen == 0:
             raise AnalysisBroken('no caller of %s::%s found' % (tgt_cls, tgt_names))
+    # ---- R-ITER: the allocator's interval list is edited through iterators; an iterator used after the
+    # erase/insert that invalidated it reads a neighbouring interval (identifiers handed out twice)
+    import iterinv
+    n_it = 0
+    seen_it = set()
+    for f in fx.fns:
+        if f.cls == 'packet_id_allocator' and f.n in ('allocate', 'free') and (f.n, f.tu) not in seen_it:
+            seen_it.add((f.n, f.tu))
+            n_it += 1
+            v.saw(f)
+            bad = iterinv.check_function(f)
+            v.check(not bad, 'R-ITER', 'packet_id_allocator::%s [%s]' % (f.n, f.tu),
+                    'no iterator into the free-interval list is used after the erase/insert that invalidated it'
+                    if not bad else 'iterator %s is dereferenced at line %d after being invalidated at line %d' % (bad[0][1], bad[0][0], bad[0][2]),
+                    key='C08:R-ITER:packet_id_allocator::%s' % f.n, where=f.file)
+    if n_it == 0:
+        raise AnalysisBroken('packet_id_allocator not instantiated')
     if n_alloc == 0:
         raise AnalysisBroken('no allocate_pid call site found in perform()')
     v.expect_min('R-DOM', 9, 'allocate sites × paths')
